@@ -660,4 +660,31 @@ theorem html5FixOK_spec {T : Tbl} (h : Html5FixOK T = true) :
   obtain ⟨⟨⟨⟨⟨⟨h1, h2⟩, h3⟩, h4⟩, h5⟩, h6⟩, h7⟩ := h
   exact ⟨keysOK_spec h1, h2, h3, h4, h5, by simpa [List.all_eq_true] using h6, h7⟩
 
+
+/-! ## where 4.13.0 and the repair agree -/
+
+/-- the old first pass would have taken the same decision as the repaired one at every ampersand of `s` -/
+def ampsAgree (T : Tbl) : PStr → Bool
+  | [] => true
+  | c :: cs => (c != 38 || ampNeedsEscape T cs == (entityLen T true cs).isSome) && ampsAgree T cs
+
+theorem escSpec_eq_of_agree (T : Tbl) : ∀ s, ampsAgree T s = true → escSpec T s = escapeAmpersands T s := by
+  intro s
+  induction s with
+  | nil => intro _; rfl
+  | cons c cs ih =>
+    intro h
+    simp only [ampsAgree, Bool.and_eq_true, Bool.or_eq_true, bne_iff_ne, ne_eq, beq_iff_eq] at h
+    simp only [escSpec, escapeAmpersands, ih h.2]
+    by_cases hc : c = 38
+    · have := h.1.resolve_left (by simp [hc])
+      simp [hc, this]
+    · simp [hc]
+
+/-- on such strings the two functions compute the same output -/
+theorem old_eq_fixed_of_agree {T : Tbl} (hw : inRanges T.word 38 = false) (hd : inRanges T.digit 38 = false)
+    (s : PStr) (h : ampsAgree T s = true) : substHtml5Old T s = substHtml5 T s := by
+  unfold substHtml5Old substHtml5 substHtml5With
+  rw [escapeEntities_eq_spec hw hd, escSpec_eq_of_agree T s h]
+
 end BS.Entities
